@@ -21,7 +21,7 @@ type argTok struct {
 
 var c10Alphabet = []argTok{
 	{"a", "a", 0}, {"é1", "é1", 0}, {"if", "if", 0}, {"var", "var", 0}, {"TRUE", "TRUE", 0}, {"local", "local", 0}, {"global", "global", 0},
-	{"5", "5", 0}, {"-1", "-1", 0}, {"0x1F", "0x1F", 0}, {"+", "+", 0}, {"*", "*", 0}, {"==", "==", 0}, {"<", "<", 0}, {"!", "!", 0}, {".", ".", 0},
+	{"5", "5", 0}, {"-1", "-1", 0}, {"0x1F", "0x1F", 0}, {"+", "+", 0}, {"*", "*", 0}, {"==", "==", 0}, {"<", "<", 0}, {"!", "!", 0}, {".", ".", 0}, {"%", "%", 0},
 	{"(", "(", 1}, {")", ")", 2}, {",", ",", 3},
 	{"K", "5", 0}, {"K2", "1 + 2", 0},
 	{`"hi"`, "S_Text_0", 4}, {"moves(u d)", "S_Movement_0", 4},
@@ -226,5 +226,5 @@ func runC10(tier string) int {
 	r.Assume("expected line = name, then the source tokens joined by single spaces with no space before a comma; constants replaced by their value; an inline text / moves() that is a whole argument replaced by its label",
 		"no empty arguments, inline data only as whole arguments, parentheses balanced to depth 2 (the property's domain)")
 	return r.Finish(r.Get("evaluations"), r.Get("nontrivial"),
-		"every argument token sequence of length <= L over a 23-token alphabet (identifiers incl. multi-byte, keywords, decimal/negative/hex numbers, operators, an illegal character, parentheses, comma, two constants, inline text, moves()) that is in the domain, with 5 command names, in 5 contexts (alone, middle of a stretch, twice in a row, all on one line, inside an if body); the whole emitted file is compared byte for byte with the generator's expectation; non-trivial = >= 2 arguments and nested parentheses")
+		"every argument token sequence of length <= L over a 24-token alphabet (identifiers incl. multi-byte, keywords, decimal/negative/hex numbers, operators, an illegal character, parentheses, comma, two constants, inline text, moves()) that is in the domain, with 5 command names, in 5 contexts (alone, middle of a stretch, twice in a row, all on one line, inside an if body); the whole emitted file is compared byte for byte with the generator's expectation; non-trivial = >= 2 arguments and nested parentheses")
 }
